@@ -153,6 +153,9 @@ func (s *Shared) Feasible(p Position, alt string) bool {
 	if (alt == "error" || alt == "errval") && p.Kind == "resolver" && s.W.MethodNoErr[norm(parts[0])+"."+norm(parts[1])] {
 		return false
 	}
+	if alt == "adderr" {
+		alt = "null" // needs a nil result just as null does
+	}
 	if alt != "null" && alt != "alt" {
 		return true
 	}
@@ -218,6 +221,10 @@ type Inst struct {
 	Done      bool
 	cancel    context.CancelFunc
 	Cancelled bool
+	// DeferredMayBeSkipped: the operation has @defer fragments; when an object fails on its
+	// own its deferred groups need not be started, so the invocations may be a sub-multiset
+	// of the plain execution's
+	DeferredMayBeSkipped bool
 }
 
 func (s *Shared) NewInst(c Case, doc *ast.QueryDocument) *Inst {
@@ -330,6 +337,21 @@ func errKeyStrings(es []ErrKey) []string {
 	return out
 }
 
+// subMultiset: every element of a (sorted) occurs in b (sorted) at least as often.
+func subMultiset(a, b []string) bool {
+	j := 0
+	for _, x := range a {
+		for j < len(b) && b[j] < x {
+			j++
+		}
+		if j >= len(b) || b[j] != x {
+			return false
+		}
+		j++
+	}
+	return true
+}
+
 func eqStrings(a, b []string) bool {
 	if len(a) != len(b) {
 		return false
@@ -364,7 +386,7 @@ func (in *Inst) compareRef(q Quirks) string {
 	}
 	wc := append([]string(nil), ref.Calls...)
 	sort.Strings(wc)
-	if gc := in.sortedCalls(); !eqStrings(wc, gc) {
+	if gc := in.sortedCalls(); !eqStrings(wc, gc) && !(in.DeferredMayBeSkipped && subMultiset(gc, wc)) {
 		return fmt.Sprintf("resolver invocations mismatch:\n  want %v\n  got  %v", wc, gc)
 	}
 	np := 0
